@@ -27,11 +27,6 @@ var defaultInitAllow = []string{
 	"github.com/jcmoraisjr/haproxy-ingress/",
 	"strings", "strconv", "sort", "unicode", "unicode/utf8", "container/list",
 	"time", "bytes", "path", "slices", "maps", "cmp",
-	"k8s.io/apimachinery/pkg/labels", "k8s.io/apimachinery/pkg/selection",
-	"k8s.io/apimachinery/pkg/util/sets", "k8s.io/apimachinery/pkg/util/validation",
-	"k8s.io/apimachinery/pkg/util/validation/field",
-	"k8s.io/apimachinery/pkg/types",
-	"k8s.io/apimachinery/pkg/util/intstr",
 }
 
 // Packages of the module whose initialisers are not run (template function maps, metrics
